@@ -25,7 +25,7 @@ VALID = ['O', 'AX', 'ZN', 'CH', 'FR', 'PA']
 REJECT = ['R:zone-type', 'R:zone-enum', 'R:zone-name', 'R:axis-type', 'R:param-ref', 'R:chan-cast', 'R:chan-type',
           'R:frame-type', 'R:origin-dup', 'R:set-value', 'R:set-units', 'R:tool-status',
           # rejections raised as RuntimeError (units for an attribute that cannot carry units), through both routes
-          'R:zone-units', 'R:chan-units']
+          'R:zone-units', 'R:chan-units', 'R:chan-cast-data']
 
 
 def depth(tier):
@@ -74,6 +74,9 @@ def rejected_op(r, handles):
         return S.op_add('parameter', 'RJ', 'X', expect='raise', zones=[last('channel')])
     if r == 'R:chan-cast':
         return S.op_add('channel', 'RJ', 'X', expect='raise', cast_dtype={'$dtype': 'int64'})
+    if r == 'R:chan-cast-data':
+        return S.op_add('channel', 'RJ', 'X', expect='raise', cast_dtype={'$dtype': 'int64'},
+                        data=S.arr_spec('float32', [2], [0x447A0000, 0x447A0000]))
     if r == 'R:chan-type':
         return S.op_add('channel', 'RJ', 'X', expect='raise', minimum_value='low')
     if r == 'R:frame-type':
@@ -211,7 +214,9 @@ FAILS = ['missing', 'missing-after-wrong-shape', 'wrong-dtype', 'wrong-dtype-sec
          'dir-target', 'bad-data-type', 'empty-dict', 'small-chunk-other-shape',
          # the write fails while the bytes of a set are being made (checks run per object, after earlier objects of
          # the same set were converted); the cause is then removed through the public setters
-         'eflr-param-values', 'eflr-zone-domain', 'eflr-chan-element-limit']
+         'eflr-param-values', 'eflr-zone-domain', 'eflr-chan-element-limit',
+         # not a write: an add_channel call that carries data and is rejected (its array must not stay behind)
+         'rejected-add-channel-with-data', 'rejected-add-channel-with-data-same-name']
 # successful earlier writes (they must leave no trace in the next write either: e.g. a remembered data dict)
 OKS = ['ok-dict', 'ok-dict-extra-key', 'ok-struct', 'ok-window']
 FINALS = ['dict', 'struct', 'h5', 'dict-missing-key']
@@ -422,6 +427,13 @@ def run_case(case):
         return Outcome('harness', [("C20:harness:fresh-final-write-unexpected", str(want)[:200])], False)
     b = S.build(_fw_spec())
     for kind in case['fw']:
+        if kind.startswith('rejected-add-channel'):
+            nm = 'B' if kind.endswith('same-name') else 'NEVER-ADDED'
+            st = S.apply_op(b, S.op_add('channel', 'RJ', nm, expect='raise', minimum_value='low',
+                                        data=S.arr_spec('uint16', [3, 2], [9, 9, 9, 9, 9, 9])))
+            if st == 'ok':
+                viol.append((f"C20:not-rejected:channel", f"{case}"))
+            continue
         kw = _failing_kwargs(kind, path)
         target = path
         for op in EFLR_BREAK.get(kind, ([], []))[0]:
